@@ -549,11 +549,12 @@ main(void)
 			int rc = readpass_file(&pw, fn);
 
 			if (rc == 0 && pw != NULL) {
-				printf("readpass inrange | ok ");
+				/* the passphrase is part of the L1 answer: it must consist of the file's bytes, nothing else */
+				printf("readpass inrange ok ");
 				hc_puthex((uint8_t *)pw, strlen(pw));
 				free(pw);
 			} else if (rc == -1)
-				printf("readpass inrange | fail");
+				printf("readpass inrange fail");
 			else
 				printf("readpass OUT-OF-RANGE rc=%d", rc);
 			unlink(fn);
